@@ -98,8 +98,14 @@ impl World {
         for (ti, tx) in block.transactions.iter().enumerate() {
             for (si, s) in tx.to.iter().enumerate() {
                 if s.amount > 0 {
-                    let name = format!("{}{}.{}", prefix, ti, si);
-                    self.outputs.insert(s.get_utxoset_key(), name.clone());
+                    // a utxo key does not contain the block hash, so blocks on different forks
+                    // can create the very same key (e.g. equal payouts at equal positions): the
+                    // first name registered for a key is THE name of that ledger entry
+                    let name = self
+                        .outputs
+                        .entry(s.get_utxoset_key())
+                        .or_insert_with(|| format!("{}{}.{}", prefix, ti, si))
+                        .clone();
                     names.push(name);
                 }
             }
